@@ -139,7 +139,8 @@ func (c *vRW) Write(p []byte) (int, error) {
 func vNewSrc(data []byte, mode int, name string) vSrc {
 	// mode 3: whole reads, the last bytes delivered together with io.EOF
 	// mode 4: two-byte reads, every other Read returning (0, nil)
-	return vSrc{data: data, name: name, whole: mode == 0 || mode == 3, one: mode == 1, eofWith: mode == 3, ndLeft: 4, zero: mode == 4}
+	// mode 5: four bytes per read
+	return vSrc{data: data, name: name, whole: mode == 0 || mode == 3, one: mode == 1, eofWith: mode == 3, ndLeft: 4, zero: mode == 4, four: mode == 5}
 }
 
 // vReadAllB drains r with a caller buffer of size B, tolerating (0,nil) reads.
